@@ -146,9 +146,44 @@ PassesAll(D, ctx, gs) == Passes(D, ctx, [k |-> "and", gs |-> gs])
 (*  qs(groups, nots, phrases, msm) | bool | dismax | const(filter) |       *)
 (*  fscore(q, ..) | fvf(q, ..)                                             *)
 
+(* Request-level fuzzy matching (README "typo-tolerant search"): a scored exact term also     *)
+(* matches documents holding an index term of the same field within `edits` (at most 2)       *)
+(* Levenshtein edits over code points that shares the first `plen` characters, provided the   *)
+(* query term has at least `minlen` characters.  The harness writes n.fz = [has, edits, plen, *)
+(* minlen] into the scored term nodes of a request with a fuzzy option; the expansion cap is  *)
+(* kept above the dictionary size ("below their expansion caps").                             *)
+RECURSIVE FzWithin(_, _, _)
+FzWithin(a, b, k) ==
+  IF k < 0 THEN FALSE
+  ELSE IF a = <<>> THEN Len(b) <= k
+  ELSE IF b = <<>> THEN Len(a) <= k
+  ELSE IF Head(a) = Head(b) THEN FzWithin(Tail(a), Tail(b), k)
+  ELSE \/ FzWithin(Tail(a), b, k - 1)
+       \/ FzWithin(a, Tail(b), k - 1)
+       \/ FzWithin(Tail(a), Tail(b), k - 1)
+
+FzSharePrefix(a, b, n) ==
+  LET m == MinI(n, Len(a)) IN Len(b) >= m /\ \A i \in 1..m : a[i] = b[i]
+
+FuzzyHas(D, d, f, kind, t, fz) ==
+  LET tc == D[t].cp
+      own == IF kind = "text" THEN TokSet(d, f) ELSE KwTerms(D, d, f)
+  IN /\ fz.edits > 0
+     /\ Len(tc) >= fz.minlen
+     /\ \E c \in own : FzSharePrefix(tc, D[c].cp, fz.plen) /\ FzWithin(tc, D[c].cp, MinI(fz.edits, 2))
+
+(* the dictionary terms a fuzzy term stands for (they are scored like the term itself) *)
+FuzzyExp(D, docs, f, kind, t, fz) ==
+  LET tc == D[t].cp IN
+  IF fz.edits > 0 /\ Len(tc) >= fz.minlen
+    THEN {c \in FieldTerms(D, docs, f, kind) :
+            FzSharePrefix(tc, D[c].cp, fz.plen) /\ FzWithin(tc, D[c].cp, MinI(fz.edits, 2))}
+    ELSE {}
+
 TermMatches(D, d, n) ==
   \E i \in DOMAIN n.alts : \E t \in SeqToSet(n.alts[i].toks) :
-     DocHas(D, d, n.alts[i].f, n.alts[i].kind, t)
+     \/ DocHas(D, d, n.alts[i].f, n.alts[i].kind, t)
+     \/ ("fz" \in DOMAIN n /\ n.fz.has /\ FuzzyHas(D, d, n.alts[i].f, n.alts[i].kind, t, n.fz))
 
 (* dictionary terms an expansion node stands for, over the documents of    *)
 (* the index (all physical slots: deleted documents keep their terms)      *)
@@ -232,6 +267,11 @@ RECURSIVE ScoredTerms(_, _, _)
 ScoredTerms(D, docs, q) ==
   CASE q.k = "term" ->
          IF q.sc THEN UNION {{<<q.alts[i].f, q.alts[i].kind, t>> : t \in SeqToSet(q.alts[i].toks)} : i \in DOMAIN q.alts}
+                      \cup (IF "fz" \in DOMAIN q /\ q.fz.has
+                              THEN UNION {UNION {{<<q.alts[i].f, q.alts[i].kind, c>> :
+                                                    c \in FuzzyExp(D, docs, q.alts[i].f, q.alts[i].kind, t, q.fz)} :
+                                                 t \in SeqToSet(q.alts[i].toks)} : i \in DOMAIN q.alts}
+                              ELSE {})
          ELSE {}
     [] q.k \in {"prefix", "wild"} ->
          IF q.sc /\ q.kind \in {"text", "kw"} THEN {<<q.f, q.kind, t>> : t \in ExpansionTerms(D, docs, q)} ELSE {}
